@@ -2,7 +2,7 @@
    of the same name without _all (both in Props/C13.v).  Kept in a file of their own because Print Assumptions walks the
    whole development once per theorem; checked on the thorough tier.  Never weaken a statement here. *)
 From AV Require Import Base.Util Model.Consumer Proofs.ConsumerBase Proofs.ConsumerStop Proofs.ConsumerInv Proofs.ConsumerShut
-  Proofs.ConsumerRun Proofs.ConsumerNotStarted Proofs.ConsumerFuelEnoughLoop Proofs.ConsumerFuelEnoughRun Proofs.ConsumerShutInvNC.
+  Proofs.ConsumerRun Proofs.ConsumerNotStarted Proofs.ConsumerFuelEnoughLoop Proofs.ConsumerFuelEnoughRun Proofs.ConsumerShutInvNC Proofs.ConsumerShutInvTop.
 Open Scope Z_scope.
 
 Theorem C13_reachable_invariant_all : forall n0 c buf evs, cfg_ok c = true ->
@@ -29,3 +29,15 @@ Theorem C13_not_started_commit_idle_all : forall n0 c buf evs, cfg_ok c = true -
   exists fuel0, forall fuel, (fuel0 <= fuel)%nat -> commit_idle_run (run_steps fuel (init c n0 buf) evs) = true.
 Proof. exact commit_idle_all. Qed.
 Print Assumptions C13_not_started_commit_idle_all.
+Theorem C13_shutdown_bookkeeping_all : forall n0 c buf evs, cfg_ok c = true ->
+  exists fuel0, forall fuel, (fuel0 <= fuel)%nat ->
+    forallb (fun t => sb_ok (t_post t)) (run_steps fuel (init c n0 buf) evs) = true.
+Proof. exact bookkeeping_all. Qed.
+Print Assumptions C13_shutdown_bookkeeping_all.
+Theorem C13_stop_then_restart_delivers_all : forall n0 c buf evs, cfg_ok c = true ->
+  exists fuel0, forall fuel, (fuel0 <= fuel)%nat ->
+    Forall (fun t => t_ev t = EStop -> s_startd (t_pre t) <> None ->
+              s_shutting (t_post t) = false /\ s_shutd (t_post t) = false /\ restarts_and_delivers fuel (t_post t))
+           (run_steps fuel (init c n0 buf) evs).
+Proof. exact stop_then_restart_all. Qed.
+Print Assumptions C13_stop_then_restart_delivers_all.
